@@ -81,12 +81,9 @@ def list (K : List Bytes) (P D M : Bytes) (N : Nat) : Page :=
 /-- ListObjectsV2: the listing starts after the larger of start-after and continuation token -/
 def markerV2 (startAfter token : Bytes) : Bytes := if blt token startAfter then startAfter else token
 
-/-- `k` lies below an internal bookkeeping directory (`.sgwtmp` directly below the bucket): such
-paths are not keys -/
-def internal (skip : List Bytes) (k : Bytes) : Bool :=
-  match splitOn 47 k with
-  | e :: _ :: _ => skip.contains e
-  | _ => false
+/-- `k` lies below an internal bookkeeping directory (a path of the skip list, `.sgwtmp`): such
+paths are not keys. A file, or a directory elsewhere, that merely has the same name is ordinary. -/
+def internal (skip : List Bytes) (k : Bytes) : Bool := skip.any fun s => (s ++ [47]).isPrefixOf k
 
 /-! ### Observation format shared with the model: objects with size/ETag, common prefixes -/
 
